@@ -24,7 +24,7 @@ EXPLANATION = (
     "TopicAndPartition built from it); closing of clients carries the must-hold fact `remove`; each except arm "
     "naming a stale-routing class contains the matching reset before its re-raise."
 )
-SHARED = [('C14', ['R2'], 'the consumer restores its retry budget after every successful fetch, so a later leader move is retried within it'), ('C10', ['R5'], 'after an outage the broker client reconnects, so producing resumes')]
+SHARED = [('C11', ['R1'], 'a send to an unreachable cached leader fails within the client timeout - the failure is what invalidates the routing'), ('C18', ['R6'], 'the partitioner is given the client\'s whole partition list: a partition without a cached leader is still chosen, sent to, and re-resolved'), ('C14', ['R2'], 'the consumer restores its retry budget after every successful fetch, so a later leader move is retried within it'), ('C10', ['R5'], 'after an outage the broker client reconnects, so producing resumes')]
 ASSUMPTIONS = ["a metadata response lists every partition of each topic it covers"]
 KC = "client:KafkaClient"
 CACHES = ("topic_partitions", "topics_to_brokers", "topic_errors", "partition_meta")
